@@ -22,9 +22,10 @@ type lin struct {
 
 type Canon struct {
 	p      *Prog
-	fields map[string]bool  // field names mentioned by loads
-	lower  map[string]int64 // inductive lower bounds of counter φs: base → c with base >= c
-	upper  map[string]lin   // inductive upper bounds of down-counting φs: base → e with base <= e
+	fields map[string]bool   // field names mentioned by loads
+	lower  map[string]int64  // inductive lower bounds of counter φs: base → c with base >= c
+	upper  map[string]lin    // inductive upper bounds of down-counting φs: base → e with base <= e
+	sums   map[string][2]lin // opaque sums of two non-constant terms: base → the terms (both >= 0 ⇒ base >= 0)
 }
 
 func (c *Canon) expr(v ssa.Value) lin {
@@ -35,6 +36,12 @@ func (c *Canon) expr(v ssa.Value) lin {
 		}
 		return lin{"const:" + x.Name(), 0}
 	case *ssa.Parameter:
+		if lo, ok := c.p.paramLowerBound(x); ok {
+			if c.lower == nil {
+				c.lower = map[string]int64{}
+			}
+			c.lower["p:"+x.Name()] = lo
+		}
 		return lin{"p:" + x.Name(), 0}
 	case *ssa.FreeVar:
 		return lin{"fv:" + x.Name(), 0}
@@ -62,6 +69,12 @@ func (c *Canon) expr(v ssa.Value) lin {
 			}
 			if l.base == "" && x.Op == token.ADD {
 				return lin{r.base, l.off + r.off}
+			}
+			if x.Op == token.ADD && isIntegerT(x.Type()) {
+				if c.sums == nil {
+					c.sums = map[string][2]lin{}
+				}
+				c.sums["v:"+vname(v)] = [2]lin{l, r}
 			}
 		}
 		return lin{"v:" + vname(v), 0}
@@ -628,4 +641,81 @@ func (f *Facts) stableBetween(iff *ssa.If, use ssa.Instruction, fields map[strin
 		}
 	}
 	return true
+}
+
+var paramLowerCache = map[*ssa.Parameter]*int64{}
+var paramLowerDone = map[*ssa.Parameter]bool{}
+
+// paramLowerBound: an integer parameter of a function that is only ever called directly, with a constant in that
+// position at every call site, is at least the smallest of those constants (peekAt(0), peekAt(1) ⇒ offset >= 0).
+func (p *Prog) paramLowerBound(prm *ssa.Parameter) (int64, bool) {
+	if paramLowerDone[prm] {
+		if v := paramLowerCache[prm]; v != nil {
+			return *v, true
+		}
+		return 0, false
+	}
+	paramLowerDone[prm] = true
+	fn := prm.Parent()
+	if fn == nil || !isIntegerT(prm.Type()) {
+		return 0, false
+	}
+	idx := -1
+	for i, q := range fn.Params {
+		if q == prm {
+			idx = i
+		}
+	}
+	if idx < 0 {
+		return 0, false
+	}
+	var lo int64
+	n := 0
+	ok := true
+	// every call edge into fn must be a direct call (a method reachable through an interface has unknown callers)
+	if node := p.CG().Nodes[fn]; node != nil {
+		for _, e := range node.In {
+			if e.Site == nil || e.Site.Common().StaticCallee() != fn {
+				return 0, false
+			}
+		}
+	}
+	for _, caller := range p.ModuleFuncs() {
+		instrsOf(caller, func(in ssa.Instruction) {
+			// any use of fn as a value (stored, passed, bound) makes its callers unknown
+			var ops []*ssa.Value
+			for _, op := range in.Operands(ops) {
+				if *op == ssa.Value(fn) {
+					ci, isCall := in.(ssa.CallInstruction)
+					if !isCall || ci.Common().Value != ssa.Value(fn) {
+						ok = false
+						return
+					}
+				}
+			}
+			ci, isCall := in.(ssa.CallInstruction)
+			if !isCall || ci.Common().StaticCallee() != fn {
+				return
+			}
+			args := ci.Common().Args
+			if idx >= len(args) {
+				ok = false
+				return
+			}
+			k, isK := constInt(args[idx])
+			if !isK {
+				ok = false
+				return
+			}
+			if n == 0 || k < lo {
+				lo = k
+			}
+			n++
+		})
+	}
+	if !ok || n == 0 {
+		return 0, false
+	}
+	paramLowerCache[prm] = &lo
+	return lo, true
 }
